@@ -261,3 +261,29 @@ Proof.
   intros H. specialize (H plain_cfg sched_answered_plain 0). apply (f_equal resp_started) in H.
   destruct witness_write_after_give as (_ & _ & W & _). rewrite W in H. cbn in H. exact (Bool.diff_true_false H).
 Qed.
+
+(* ---------- a timer function of an earlier owner of the pooled object ---------- *)
+(* the per-try timer function comparing the object's ID with itself (switch set back): request B is parked on its silent-so-far
+   upstream (no per-try time-out of its own) when the per-try timer of the PREVIOUS owner of its downStream object runs: B's attempt
+   is reset and B is answered with the time-out reply (504) produced for the other request; with the captured ID it does nothing *)
+Definition src_try_self_compare : srcp := src_tree <| try_captures_id := false |>.
+Definition sched_stale_try : list step := repeat Worker 12 ++ [Env (EvStaleTry false)] ++ drive.
+Lemma witness_stale_timer :
+  g_reply_kind (summ src_try_self_compare plain_cfg sched_stale_try) = Some (KHijack, 504) /\
+  g_ended (summ src_try_self_compare plain_cfg sched_stale_try) = true /\
+  existsb (fun o => match o with OUpReset _ => true | _ => false end) (trace src_try_self_compare plain_cfg sched_stale_try) = true /\
+  (* the tree: B is still waiting for its upstream, untouched but for reuseBuffer *)
+  g_started (summ src_tree plain_cfg sched_stale_try) = false /\
+  ph (final src_tree plain_cfg sched_stale_try) = PWaitNotify /\
+  received (final src_tree plain_cfg sched_stale_try) = false /\
+  up_alive (final src_tree plain_cfg sched_stale_try) = true /\
+  reuse (final src_tree plain_cfg sched_stale_try) = false.
+Proof. vm_compute. repeat split; reflexivity. Qed.
+
+Definition stale_timer_statement (src : srcp) : Prop :=
+  forall c s, env_step src c (EvStaleTry false) s = (s <| reuse := false |>, []).
+Lemma refuted_try_self_compare : ~ stale_timer_statement src_try_self_compare.
+Proof.
+  intros H. specialize (H plain_cfg (final src_tree plain_cfg (repeat Worker 12))).
+  apply (f_equal (fun p => received (fst p))) in H. vm_compute in H. discriminate H.
+Qed.
